@@ -105,6 +105,43 @@ theorem gen_chars_slice_is_model (dbg : Bool) (s : Str) (i j : USz) :
 
 example : (charsSlice ['h', 'é', 'l'] 1 3).map' (Option.map Str.mk) = .ok (some ⟨['é', 'l']⟩) := by decide
 
+/-- `StringBytes::get` AS GENERATED from string.rs (`get(idx..)` then the first
+character): the character that starts at byte offset `idx`; `None` inside a
+code point, at the end, out of range — for every string and 64-bit offset. -/
+theorem gen_bytes_get_spec (dbg : Bool) (s : Str) (idx : USz) :
+    Gen.C17Views.StringBytes_get dbg s idx = .ok (specBytesGet s.chars idx.toNat) :=
+  StringsGen.gen_bytes_get dbg s idx
+
+example :
+    Gen.C17Views.StringBytes_get false ⟨['h', 'é', 'l']⟩ ⟨BitVec.ofNat 64 1⟩ = .ok (some 'é') ∧
+    Gen.C17Views.StringBytes_get false ⟨['h', 'é', 'l']⟩ ⟨BitVec.ofNat 64 2⟩ = .ok none ∧
+    specBytesGet ['h', 'é', 'l'] 2 = none := by decide
+
+/-- `StringBytes::slice` AS GENERATED from string.rs (`get(i..j)`): the characters
+between two code-point boundaries `i ≤ j`; `None` off a boundary, out of range
+or for `i > j`; never panics — for every string and all 64-bit offsets. -/
+theorem gen_bytes_slice_spec (dbg : Bool) (s : Str) (i j : USz) :
+    Gen.C17Views.StringBytes_slice dbg s i j =
+      .ok ((specBytesSlice s.chars i.toNat j.toNat).map Str.mk) :=
+  StringsGen.gen_bytes_slice dbg s i j
+
+example :
+    Gen.C17Views.StringBytes_slice false ⟨['h', 'é', 'l']⟩ ⟨BitVec.ofNat 64 1⟩ ⟨BitVec.ofNat 64 3⟩
+      = .ok (some ⟨['é']⟩) ∧
+    Gen.C17Views.StringBytes_slice false ⟨['h', 'é', 'l']⟩ ⟨BitVec.ofNat 64 1⟩ ⟨BitVec.ofNat 64 2⟩
+      = .ok none := by decide
+
+/-- `StringLines::get` AS GENERATED from string.rs is the model `linesGet` — the
+body of `StringBytes::get` — so `lines_get_spec_refuted` is about the real body:
+the generated definition returns `'b'` for line 1 of `"ab\ncd\n"`. -/
+theorem gen_lines_get_is_model (dbg : Bool) (s : Str) (idx : USz) :
+    Gen.C17Views.StringLines_get dbg s idx = .ok (linesGet s.chars idx.toNat) ∧
+    Gen.C17Views.StringLines_get dbg s idx = Gen.C17Views.StringBytes_get dbg s idx :=
+  ⟨StringsGen.gen_lines_get dbg s idx, rfl⟩
+
+example : Gen.C17Views.StringLines_get false ⟨['a', 'b', '\n', 'c', 'd', '\n']⟩ ⟨BitVec.ofNat 64 1⟩
+    = .ok (some 'b') := by decide
+
 /-- `StringLines::slice` AS GENERATED from string.rs (statement by statement: the
 `checked_sub`, the optional end offset, the two skip/take loops, the `num == 0`
 early return, `chain`, `&s[start_idx..end_idx]` with its panic explicit) equals
